@@ -463,13 +463,23 @@ func opTr(fails *[]string, label []byte, ops string) string {
 			f := strings.Split(it, ":")
 			switch f[0] {
 			case "d":
-				tr.DomainSep(mustUnhex(f[1]))
+				lab := mustUnhex(f[1])
+				tr.DomainSep(lab)
+				for k := range lab { // the caller reuses its scratch buffer afterwards
+					lab[k] ^= 0xA5
+				}
 			case "m":
 				msg := mustUnhex(f[2])
 				lab := mustUnhex(f[1])
 				km, kl := append([]byte(nil), msg...), append([]byte(nil), lab...)
 				tr.AppendMessage(msg, lab)
 				assertf(fails, bytes.Equal(km, msg) && bytes.Equal(kl, lab), "AppendMessage modified its arguments")
+				for k := range msg { // the caller reuses / wipes its buffers afterwards
+					msg[k] = byte(k)
+				}
+				for k := range lab {
+					lab[k] ^= 0x5A
+				}
 			case "s":
 				s := frFromHexBE(f[2])
 				keep := s
@@ -481,7 +491,11 @@ func opTr(fails *[]string, label []byte, ops string) string {
 				tr.AppendPoint(&p, mustUnhex(f[1]))
 				assertf(fails, p == keep, "AppendPoint modified the point")
 			case "c":
-				c := tr.ChallengeScalar(mustUnhex(f[1]))
+				lab := mustUnhex(f[1])
+				c := tr.ChallengeScalar(lab)
+				for k := range lab {
+					lab[k] ^= 0x3C
+				}
 				le := c.BytesLE()
 				outs = append(outs, hx(le[:]))
 			default:
